@@ -80,6 +80,13 @@ def check_loop(fnode, loop, xvars, accs, dedup_ok=True, extra_sink=None):
                             tainted.add(e.id)
                             changed = True
     res = XferResult()
+    # names bound (inside the loop) to the accumulator or to one of its elements
+    accroots = {a.split(".")[0] if "." not in a else a for a in accs}
+    acc_derived = set(a for a in accs if "." not in a)
+    for s in loop.body:
+        for n in ast.walk(s):
+            if isinstance(n, ast.Assign) and isinstance(n.targets[0], ast.Name) and any(norm(x) in accs or (isinstance(x, ast.Name) and x.id in acc_derived) for x in ast.walk(n.value)):
+                acc_derived.add(n.targets[0].id)
 
     def is_sink(stmt):
         if stmt is None:
@@ -134,6 +141,12 @@ def check_loop(fnode, loop, xvars, accs, dedup_ok=True, extra_sink=None):
                 return 1
         if isinstance(n, ast.UnaryOp) and isinstance(n.op, ast.Not):
             return -dedup_atom(n.operand)
+        # a helper that receives both the element and (a piece of) the accumulator and answers whether it took the element in:
+        # `if _extend_raw(last, p): continue` with last = parts[-1]
+        if isinstance(n, ast.Call) and isinstance(n.func, (ast.Name, ast.Attribute)):
+            argn = [names_in(a) for a in n.args]
+            if any(a & tainted for a in argn) and any(a & acc_derived for a in argn):
+                return 1
         return 0
 
     def dedup_test(testexpr, label):
